@@ -1083,10 +1083,585 @@ func runC17(c *runCtx) error {
 	e.m.Rule = "part A: SyntaxError/ExecuteError built by the harness for the grid (trimmed length, position incl. -1 and out-of-range, leading white space 0/1/3/40/tab-newline, trailing 0/2/newline, padding 0/7/12/-3); part B: positional errors returned by BuildPlan/Next/Batch for generated statements, their single-edit corruptions and run-time failing statements x leading 0/1/3/40 x trailing 0/2 x padding 0/7/12. non-trivial = the caret verdict applies (pos = -1 or a non-blank byte, padding >= 0) and the error came from the library or the query has leading white space or more than 70 bytes after trimming; distinct = distinct Gallina case terms"
 	runC17Statements(c, e)
 	runC17Grid(c, e)
+	runC17PA(c, e)
 	e.m.Exhaustive = c.thorough()
 	e.m.Notes = append(e.m.Notes,
 		"white space produced by the generators is ASCII; the lexer separates tokens at ' ' only, so statement cases use blanks (tabs/newlines appear in the renderer grid only)",
 		"token starts: where the lexer twin covers the query text, those the twin computes from it (Corr/C17.v true_starts; a difference to Lexer.Split's own offsets is code 1); otherwise Lexer.Split's")
 	e.perShard = min(1500, max(150, (len(e.cases)+15)/16))
 	return e.flush()
+}
+
+// ---------------------------------------------------------------- PA: statement TEXT -> accept /
+// reject, through the composite twin Model/ParseCheck.parse_check (corigin = 4 of Corr/C17.v).
+// For every text -- valid statements of c17Gen, their single-edit corruptions, statements failing
+// at run time (c17Faulty) and ILL-TYPED statements (an operand, operator, function or clause of a
+// valid statement replaced so that the static checker, the call validation or the plan builder
+// has to reject it, the fault at a random place) -- Optimizer.BuildPlan is observed: plan /
+// error class / error position / whether Parser.Parse itself or a later step of BuildPlan
+// rejected; for accepted statements the trees Parser.Parse leaves behind and all statement and
+// clause positions.  coqc runs parse_check on the same text and compares (never messages).
+
+type paReplay struct {
+	Origin  string `json:"origin"`
+	Class   string `json:"generator_class"`
+	Query   string `json:"query"`
+	Outcome string `json:"observed"`
+	Pos     int    `json:"pos"`
+	Stage   string `json:"rejected_by"`
+	Msg     string `json:"message,omitempty"`
+	Base    string `json:"base_statement,omitempty"`
+	Edit    string `json:"edit,omitempty"`
+}
+
+// paExpr: coqExpr, but a field reference carries no definition (references are compared by
+// name: the Go checker shares the definition and rewrites it in place).
+func paExpr(e kvql.Expression, depth int) (string, bool) {
+	if depth > 200 || e == nil {
+		return "", false
+	}
+	list := func(xs []kvql.Expression) (string, bool) {
+		items := make([]string, len(xs))
+		ok := true
+		for i, a := range xs {
+			var oka bool
+			items[i], oka = paExpr(a, depth+1)
+			ok = ok && oka
+		}
+		return coqList(items), ok
+	}
+	switch x := e.(type) {
+	case *kvql.BinaryOpExpr:
+		l, ok1 := paExpr(x.Left, depth+1)
+		r, ok2 := paExpr(x.Right, depth+1)
+		o, ok3 := opCtor[x.Op]
+		return fmt.Sprintf("(EBin %d %s %s %s)", natPos(x.Pos), o, l, r), ok1 && ok2 && ok3 && x.Pos >= 0
+	case *kvql.NotExpr:
+		r, ok := paExpr(x.Right, depth+1)
+		return fmt.Sprintf("(ENot %d %s)", natPos(x.Pos), r), ok && x.Pos >= 0
+	case *kvql.FunctionCallExpr:
+		n, ok := paExpr(x.Name, depth+1)
+		args, oka := list(x.Args)
+		return fmt.Sprintf("(ECall %d %s %s)", natPos(x.Pos), n, args), ok && oka && x.Pos >= 0
+	case *kvql.FieldReferenceExpr:
+		return fmt.Sprintf("(ERef %d %s (EBool 0 true))", natPos(x.Name.Pos), coqStr(x.Name.Data)), x.Name.Pos >= 0
+	case *kvql.ListExpr:
+		items, ok := list(x.List)
+		return fmt.Sprintf("(EList %d %s)", natPos(x.Pos), items), ok && x.Pos >= 0
+	case *kvql.FieldAccessExpr:
+		l, ok1 := paExpr(x.Left, depth+1)
+		f, ok2 := paExpr(x.FieldName, depth+1)
+		return fmt.Sprintf("(EAccess %d %s %s)", natPos(x.Pos), l, f), ok1 && ok2 && x.Pos >= 0
+	default:
+		return coqExprD(e, depth) // leaves
+	}
+}
+
+// paStatement: trees (fields ++ [where] / pairs / keys / [where]) and positions (statement,
+// WHERE, ORDER BY, GROUP BY, LIMIT) of the statement Parser.Parse returns.
+func paStatement(stmt kvql.Statement) (roots []string, spos []int, ok bool) {
+	ok = true
+	add := func(x kvql.Expression) {
+		t, good := paExpr(x, 0)
+		if !good {
+			ok = false
+		}
+		roots = append(roots, t)
+	}
+	addLimit := func(l *kvql.LimitStmt) {
+		if l != nil {
+			spos = append(spos, l.Pos)
+		}
+	}
+	switch s := stmt.(type) {
+	case *kvql.SelectStmt:
+		spos = append(spos, s.Pos, s.Where.Pos)
+		for _, f := range s.Fields {
+			add(f)
+		}
+		add(s.Where.Expr)
+		if s.Order != nil {
+			spos = append(spos, s.Order.Pos)
+		}
+		if s.GroupBy != nil {
+			spos = append(spos, s.GroupBy.Pos)
+		}
+		addLimit(s.Limit)
+	case *kvql.DeleteStmt:
+		spos = append(spos, s.Pos, s.Where.Pos)
+		add(s.Where.Expr)
+		addLimit(s.Limit)
+	case *kvql.PutStmt:
+		spos = append(spos, s.Pos)
+		for _, kv := range s.KVPairs {
+			add(kv.Key)
+			add(kv.Value)
+		}
+	case *kvql.RemoveStmt:
+		spos = append(spos, s.Pos)
+		for _, k := range s.Keys {
+			add(k)
+		}
+	default:
+		ok = false
+	}
+	for _, p := range spos {
+		if p < 0 {
+			ok = false
+		}
+	}
+	return
+}
+
+// messages of parser.go's SYNTAX errors and of its mid-parse tests -- used ONLY to label the
+// measured distribution (who rejected), never in a comparison
+var paSyntaxMsgs = []string{"Expect token", "Expect operator", "Unexpected EOF", "Function argument expect",
+	"Field access operator should only have one field name", "Bad Expression", "Invalid field expression",
+	"Require field name", "Expect `as` or `,`", "Empty fields in select statement", "Invalid limit parameters",
+	"Too many limit parameters", "Put key-value pair expect", "Duplicate ", "Missing operator", "Has more expression",
+	"Expect put, delete, select or where keyword", "Expect where keyword", "Expect where statement",
+	"Require order by fields", "Require group by fields", "Unknown operator", "exceed max nesting depth"}
+var paMidParseMsgs = []string{"Cannot find field ", "return wrong type", "Cannot find aggregate function", "is defined in terms of itself"}
+
+func paWho(q string, stage int, msg string, pos int) string {
+	if stage == 1 {
+		if strings.HasPrefix(msg, "No aggregate fields") || strings.HasPrefix(msg, "Missing aggregate fields") || strings.HasPrefix(msg, "Missing group by") {
+			return "plan_builder"
+		}
+		if strings.HasPrefix(msg, "Cannot find function") || strings.Contains(msg, "wrong number of arguments") {
+			return "call_validation"
+		}
+		return "plan_init_or_other"
+	}
+	for _, m := range paSyntaxMsgs {
+		if strings.HasPrefix(msg, m) {
+			return "parser_syntax"
+		}
+	}
+	if msg == "Invalid field name" {
+		// parseSelect (the token after AS) or FieldAccessExpr.Check
+		toks := kvql.NewLexer(q).Split()
+		for i, t := range toks {
+			if t.Pos == pos && i > 0 && toks[i-1].Tp == kvql.AS {
+				return "parser_syntax"
+			}
+		}
+		return "checker"
+	}
+	for _, m := range paMidParseMsgs {
+		if strings.Contains(msg, m) {
+			return "parser_mid_parse_test"
+		}
+	}
+	return "checker"
+}
+
+var paSeen = map[string]bool{}
+
+// paCase observes one statement text and emits the case.
+func paCase(e *emitter, q, class, base, edit string) {
+	if paSeen[q] {
+		e.count("pa/duplicate_text_skipped")
+		return
+	}
+	paSeen[q] = true
+	var (
+		cls, pos, stage int
+		msg             string
+		roots           []string
+		spos            []int
+		panicked        string
+	)
+	func() {
+		defer func() {
+			if r := recover(); r != nil {
+				panicked = fmt.Sprint(r)
+			}
+		}()
+		st := newStore(c17Store)
+		_, err := kvql.NewOptimizer(q).BuildPlan(st)
+		stmt, perr := kvql.NewParser(q).Parse()
+		if err == nil {
+			stage = 2
+			var ok bool
+			roots, spos, ok = paStatement(stmt)
+			if !ok || perr != nil {
+				roots, spos = nil, nil
+				e.count("pa/accepted_tree_not_recorded")
+			}
+			return
+		}
+		if perr == nil {
+			stage = 1
+		}
+		tp, _, p, m, positional := c17PosErr(err)
+		pos, msg = p, m
+		switch {
+		case !positional:
+			cls, msg = 3, err.Error()
+		case tp == "syntax":
+			cls = 1
+		default:
+			cls = 2
+		}
+	}()
+	if panicked != "" {
+		e.count("pa/BuildPlan_panicked(not_C17)")
+		return
+	}
+	outcome, who := "accepted", "-"
+	if cls != 0 {
+		who = paWho(q, stage, msg, pos)
+		outcome = "rejected"
+	}
+	rp := paReplay{Origin: "parse_check", Class: class, Query: q, Outcome: outcome, Pos: pos, Stage: who, Msg: msg, Base: base, Edit: edit}
+	sp := []string{fmt.Sprint(stage)}
+	for _, p := range spos {
+		sp = append(sp, fmt.Sprint(p))
+	}
+	if roots == nil {
+		roots = []string{}
+	}
+	term := fmt.Sprintf("Case %d 4 %s %s 0 [] []%%Z None %s %s", cls, c17Segs(c17Encode(q, "")), c17Z(pos), coqList(roots), coqList(sp))
+	idx := e.add(term, rp, cls != 0 || len(spos) > 0)
+	e.count("pa/cases")
+	e.count("pa/class=" + class)
+	if cls == 0 {
+		e.count("pa/outcome=accepted")
+		e.count("pa/class=" + class + "/accepted")
+	} else {
+		e.count("pa/outcome=rejected_by_" + who)
+		e.count("pa/class=" + class + "/rejected_by_" + who)
+		switch {
+		case pos == -1:
+			e.count("pa/rejected_pos=eof")
+		case pos == 0:
+			e.count("pa/rejected_pos=0")
+		case len(q) > 0 && pos*3 < len(q):
+			e.count("pa/rejected_pos=first_third")
+		case len(q) > 0 && pos*3 < 2*len(q):
+			e.count("pa/rejected_pos=middle_third")
+		default:
+			e.count("pa/rejected_pos=last_third")
+		}
+	}
+	// direct verdicts (the same as for origin build)
+	if cls == 1 || cls == 2 {
+		if !(pos == -1 || (pos >= 0 && pos < len(q))) {
+			e.fail(idx, fmt.Sprintf("error position %d is neither -1 nor inside the %d-byte query", pos, len(q)), "C17/pos-range", rp)
+		} else if pos > 0 {
+			found := false
+			for _, s := range c17TokenStarts(q) {
+				if s == pos {
+					found = true
+				}
+			}
+			if !found {
+				e.fail(idx, fmt.Sprintf("parse/check error position %d is not the start of a token", pos), "C17/pos-token-start", rp)
+			}
+		}
+	}
+}
+
+func paIsStrLit(l string) bool { return len(l) >= 2 && (l[0] == '\'' || l[0] == '"') }
+func paIsNum(l string) bool {
+	for i := 0; i < len(l); i++ {
+		if l[i] < '0' || l[i] > '9' {
+			return false
+		}
+	}
+	return len(l) > 0
+}
+
+var paCmpOps = map[string]bool{"=": true, "!=": true, ">": true, ">=": true, "<": true, "<=": true, "^=": true, "~=": true}
+var paLogOps = map[string]bool{"&": true, "|": true, "and": true, "or": true}
+
+// paIllTyped returns up to n ill-typed variants of a valid statement: one operand, operator,
+// function or clause replaced at a random eligible lexeme (so the fault sits at many offsets).
+func paIllTyped(r *rng, lex []string, n int) (out [][]string, what []string) {
+	idx := func(pred func(i int) bool) []int {
+		var is []int
+		for i := range lex {
+			if pred(i) {
+				is = append(is, i)
+			}
+		}
+		return is
+	}
+	repl := func(i int, with ...string) []string {
+		nl := append([]string{}, lex[:i]...)
+		nl = append(nl, with...)
+		return append(nl, lex[i+1:]...)
+	}
+	ins := func(i int, with ...string) []string {
+		nl := append([]string{}, lex[:i]...)
+		nl = append(nl, with...)
+		return append(nl, lex[i:]...)
+	}
+	whereAt := -1
+	for i, l := range lex {
+		if l == "where" {
+			whereAt = i
+		}
+	}
+	inWhere := func(i int) bool { return whereAt >= 0 && i > whereAt }
+	for tries := 0; tries < 4*n && len(out) < n; tries++ {
+		var nl []string
+		var w string
+		switch r.intn(12) {
+		case 0: // a text literal becomes a number
+			if is := idx(func(i int) bool { return paIsStrLit(lex[i]) }); len(is) > 0 {
+				i := pick(r, is)
+				nl, w = repl(i, pick(r, []string{"7", "2.5", "true"})), fmt.Sprintf("literal %s -> other kind #%d", lex[i], i)
+			}
+		case 1: // a number becomes text
+			if is := idx(func(i int) bool { return paIsNum(lex[i]) && inWhere(i) && lex[i-1] != "limit" && lex[i-1] != "," }); len(is) > 0 {
+				i := pick(r, is)
+				nl, w = repl(i, pick(r, []string{"'s'", "false", "key"})), fmt.Sprintf("number %s -> other kind #%d", lex[i], i)
+			}
+		case 2: // key / value becomes a number / Boolean / list
+			if is := idx(func(i int) bool { return (lex[i] == "key" || lex[i] == "value") && i > 0 && lex[i-1] != "by" }); len(is) > 0 {
+				i := pick(r, is)
+				nl, w = repl(i, pick(r, []string{"3", "true", "1.5"})), fmt.Sprintf("field %s -> literal #%d", lex[i], i)
+			}
+		case 3: // a comparison operator becomes arithmetic / logic
+			if is := idx(func(i int) bool { return paCmpOps[lex[i]] }); len(is) > 0 {
+				i := pick(r, is)
+				nl, w = repl(i, pick(r, []string{"+", "&", "*", "or", "-"})), fmt.Sprintf("operator %s replaced #%d", lex[i], i)
+			}
+		case 4: // a logical operator becomes a comparison / arithmetic
+			if is := idx(func(i int) bool { return paLogOps[lex[i]] && inWhere(i) && lex[i-1] != "between" && (i < 2 || lex[i-2] != "between") }); len(is) > 0 {
+				i := pick(r, is)
+				nl, w = repl(i, pick(r, []string{"=", "+", ">", "^="})), fmt.Sprintf("operator %s replaced #%d", lex[i], i)
+			}
+		case 5: // ! in front of an operand that is not Boolean
+			if is := idx(func(i int) bool { return paIsStrLit(lex[i]) || lex[i] == "key" && inWhere(i) }); len(is) > 0 {
+				i := pick(r, is)
+				nl, w = ins(i, "!"), fmt.Sprintf("! inserted #%d", i)
+			}
+		case 6: // unknown function / wrong argument count
+			if is := idx(func(i int) bool { return i+1 < len(lex) && lex[i+1] == "(" && c17IsWord(lex[i]) && lex[i] != "in" && lex[i] != "put" }); len(is) > 0 {
+				i := pick(r, is)
+				if r.chance(1, 2) {
+					nl, w = repl(i, "nosuch"), fmt.Sprintf("function %s -> nosuch #%d", lex[i], i)
+				} else {
+					nl, w = ins(i+2, "key", ","), fmt.Sprintf("extra argument for %s #%d", lex[i], i)
+				}
+			}
+		case 7: // the WHERE clause joined with something that is not Boolean
+			if whereAt >= 0 {
+				end := len(lex)
+				for i := whereAt + 1; i < len(lex); i++ {
+					if lex[i] == "order" || lex[i] == "group" || lex[i] == "limit" {
+						end = i
+						break
+					}
+				}
+				junk := pick(r, [][]string{{"'a'"}, {"1"}, {"key"}, {"upper", "(", "key", ")"}, {"count", "(", "1", ")", ">", "0"}, {"1", "/", "0", "=", "1"},
+					{"key", "in", "(", "'a'", ",", "1", ")"}, {"key", "between", "1", "and", "'z'"}, {"upper", "(", "key", ")", "[", "'a'", "]", "=", "'x'"},
+					{"key", "in", "upper", "(", "key", ")"}, {"value", "=", "value"}, {"1.5", "/", "0.0", ">", "1"}})
+				op := pick(r, []string{"&", "|", "and", "or"})
+				if r.chance(1, 2) {
+					nl = append(append(append(append([]string{}, lex[:end]...), op), junk...), lex[end:]...)
+				} else {
+					nl = append(append(append(append([]string{}, lex[:whereAt+1]...), junk...), op), lex[whereAt+1:]...)
+				}
+				w = "where joined with " + strings.Join(junk, " ")
+			}
+		case 8: // ORDER BY / GROUP BY a name that is no field, or a field of the wrong type
+			if len(lex) > 0 && lex[0] == "select" && whereAt >= 0 {
+				switch r.intn(3) {
+				case 0:
+					nl, w = append(append([]string{}, lex...), "order", "by", "zq9"), "order by unknown name"
+				case 1:
+					nl = append(append([]string{"select", "split", "(", "value", ",", "','", ")", "as", "zq8", ","}, lex[1:]...), "order", "by", "zq8")
+					w = "order by a list-typed field"
+				default:
+					nl, w = append(append([]string{}, lex...), "group", "by", "zq9"), "group by unknown name"
+				}
+				// (a second ORDER BY / a clause after LIMIT is a syntax error: measured, not avoided)
+			}
+		case 9: // an alias used where its type does not fit
+			if is := idx(func(i int) bool { return len(lex[i]) == 3 && lex[i][:2] == "zq" && i > 0 && lex[i-1] == "as" }); len(is) > 0 && whereAt >= 0 {
+				i := pick(r, is)
+				a := lex[i]
+				junk := pick(r, [][]string{{a, "&", "true"}, {a, "=", "true"}, {"!", a}, {a, "[", "0", "]", "=", "'a'"}, {a, "+", "true", "=", "1"}})
+				nl = append(append(append(append([]string{}, lex[:whereAt+1]...), junk...), "&"), lex[whereAt+1:]...)
+				w = "alias misused: " + strings.Join(junk, " ")
+			}
+		case 10: // a field defined through itself / aggregates in the wrong place
+			if len(lex) > 1 && lex[0] == "select" && lex[1] != "*" && whereAt >= 0 {
+				switch r.intn(4) {
+				case 0:
+					nl, w = append([]string{"select", "upper", "(", "zq7", ")", "as", "zq7", ","}, lex[1:]...), "field defined through itself"
+				case 1:
+					nl, w = append([]string{"select", "zq6", "+", "1", "as", "zq7", ",", "zq7", "+", "1", "as", "zq6", ","}, lex[1:]...), "fields defined through each other"
+				case 2:
+					nl, w = append([]string{"select", "sum", "(", "count", "(", "1", ")", ")", "as", "zq7", ","}, lex[1:]...), "aggregate inside aggregate"
+				default:
+					nl, w = append([]string{"select", "count", "(", "1", ")", "as", "zq7", ","}, lex[1:]...), "aggregate next to plain fields without group by"
+				}
+			}
+		default: // statement forms
+			p := pick(r, c17Lits)
+			switch r.intn(9) {
+			case 0:
+				nl, w = c17w("put", "(", "key", ",", p, ")"), "put: key in the key expression"
+			case 1:
+				nl, w = c17w("put", "(", p, ",", "value", ")", ",", "(", "'k'", ",", "'v'", ")"), "put: value keyword"
+			case 2:
+				nl, w = c17w("put", "(", p, ",", "'v'", ")", ",", "(", "'k'", ",", "1", "=", "1", ")"), "put: Boolean value"
+			case 3:
+				nl, w = c17w("remove", p, ",", "key"), "remove: key keyword"
+			case 4:
+				nl, w = c17w("remove", p, ",", p, "=", p), "remove: Boolean key"
+			case 5:
+				nl, w = c17w("delete", "where", p), "delete: WHERE is text"
+			case 6:
+				nl, w = c17w("delete", "where", "key", "+", p), "delete: WHERE is text"
+			case 7:
+				nl, w = c17w("select", "key", ",", "value", "where", "key", "^=", p, "group", "by", "key"), "group by without aggregate"
+			default:
+				nl, w = c17w("select", "count", "(", "1", ")", "as", "zq0", ",", "key", ",", "value", "where", "key", "^=", p, "group", "by", "key"), "field neither grouped nor aggregated"
+			}
+		}
+		if nl != nil {
+			out = append(out, nl)
+			what = append(what, w)
+		}
+	}
+	return
+}
+
+// paCorrupt: one single-edit corruption (the operators of runC17Statements).
+func paCorrupt(r *rng, lex []string, base string, mode, loc, ek int) (text, edit string) {
+	locName := []string{"early", "middle", "late"}[loc]
+	switch ek {
+	case 0:
+		i := c17PickLoc(r, len(lex), loc)
+		nl := append(append([]string{}, lex[:i]...), lex[i+1:]...)
+		return c17Render(nl, mode), fmt.Sprintf("delete-token@%s #%d %q", locName, i, lex[i])
+	case 1:
+		i := c17PickLoc(r, len(lex), loc)
+		nl := append(append(append([]string{}, lex[:i+1]...), lex[i]), lex[i+1:]...)
+		return c17Render(nl, mode), fmt.Sprintf("duplicate-token@%s #%d %q", locName, i, lex[i])
+	case 2:
+		i := c17PickLoc(r, len(lex), loc)
+		nl := append([]string{}, lex...)
+		nl[i] = pick(r, c17TokPool)
+		return c17Render(nl, mode), fmt.Sprintf("replace-token@%s #%d %q -> %q", locName, i, lex[i], nl[i])
+	case 3:
+		i := c17PickLoc(r, len(lex)-1, loc)
+		nl := append([]string{}, lex...)
+		if len(nl) > 1 {
+			nl[i], nl[i+1] = nl[i+1], nl[i]
+		}
+		return c17Render(nl, mode), fmt.Sprintf("swap-tokens@%s #%d", locName, i)
+	case 4:
+		i := c17PickLoc(r, len(base), loc)
+		return base[:i] + base[i+1:], fmt.Sprintf("delete-byte@%s #%d %q", locName, i, base[i])
+	case 5:
+		i := c17PickLoc(r, len(base), loc)
+		return base[:i+1] + base[i:], fmt.Sprintf("duplicate-byte@%s #%d %q", locName, i, base[i])
+	default:
+		i := c17PickLoc(r, len(base), loc)
+		ch := c17BytePool[r.intn(len(c17BytePool))]
+		return base[:i] + string(ch) + base[i+1:], fmt.Sprintf("replace-byte@%s #%d %q -> %q", locName, i, base[i], ch)
+	}
+}
+
+// statements around field references (aliases used inside other fields, in WHERE, ORDER BY and
+// GROUP BY), where the order of the checks and the in-place rewriting of the fields matter
+var paAliasStmts = []string{
+	"select key as zq0, upper(zq0) as zq1 where zq1 = 'A' order by zq1",
+	"select upper(zq1) as zq0, key as zq1 where zq0 ^= 'K'",
+	"select int(value) as zq0, zq0 * 2 as zq1 where zq1 > 3 & zq0 < 100",
+	"select zq1 + 'x' as zq0, key as zq1 where zq0 = 'k1x'",
+	"select zq1 + 'x' as zq0, key as zq1 where zq0 = 1",
+	"select zq1 + 'x' as zq0, zq0 * 2 as zq2, key as zq1 where key > 'a'",
+	"select zq0 + 1 as zq2, zq1 + 'x' as zq0, key as zq1, zq2 * 2 as zq3 where key > 'a'",
+	"select key as zq0, value as zq0 where zq0 = 'k1'",
+	"select is_int(value) as zq0 where zq0",
+	"select is_int(value) as zq0 where !zq0 & zq0",
+	"select key as zq0 where zq0",
+	"select key as zq0 where zq0 in ('a', zq0)",
+	"select key as zq0, int(value) as zq1 where zq1 between 1 and zq0",
+	"select key as zq0, count(1) as zq1 where key ^= 'k' group by zq0",
+	"select upper(key) as zq0, count(1) as zq1 where key ^= 'k' group by zq0 order by zq1 desc",
+	"select zq2 + 'x' as zq0, count(1) as zq1, key as zq2 where zq0 ^= 'k' group by zq0",
+	"select zq2 * 2 as zq0, count(1) as zq1, key as zq2 where key ^= 'k' group by zq0",
+	"select zq2 + 1 as zq0, count(1) as zq1, key as zq2 where key ^= 'k' group by zq0, zq2",
+	"select key, count(1) where key ^= 'k' group by key",
+	"select key, count(1) where key ^= 'k' group by count(1)",
+	"select key, count(1) where key ^= 'k' group by key, count(1)",
+	"select key, value, count(1) where key ^= 'k' group by key, value limit 2",
+	"select KEY, sum(int(value)) where key ^= 'k' group by KEY order by KEY",
+	"select key as zq0 where key ^= 'k' order by zq0, zq9",
+	"select key as zq0 where key ^= 'k' order by zq0 desc, key",
+	"select `zq 0` where key ^= 'k'",
+	"select key as `zq 0`, upper(`zq 0`) as zq1 where `zq 0` = 'k1' order by `zq 0`",
+	"where key ^= 'k' order by key",
+	"where zq0 = 'a'",
+	"select * where key ^= 'k' order by KEY",
+	"select * where key ^= 'k' order by key, value desc limit 1, 2",
+	"select * where key ^= 'k' group by key",
+	"select count(1) where key ^= 'k'",
+	"select count(1), sum(int(value)) + 1 where key ^= 'k'",
+	"select count(1) + sum(count(1)) where key ^= 'k'",
+	"select count(upper(count(1))) where key ^= 'k'",
+	"select upper(count(1)) where key ^= 'k'",
+	"select count(1, 2) where key ^= 'k'",
+	"select sum() where key ^= 'k'",
+	"select key where count(1) > 0",
+	"select key where key ^= 'k' limit 0",
+	"select 'a'(1) where key ^= 'k'",
+	"select key where 1(2) = 3",
+	"select key where key(2) = 'a'",
+}
+
+func runC17PA(c *runCtx, e *emitter) {
+	g := &c17Gen{r: newRng(c.seed*1000003 + 17)}
+	r := g.r
+	nBase := 110
+	if c.thorough() {
+		nBase = 1500
+	}
+	if c.search {
+		nBase *= 3
+	}
+	for _, q := range paAliasStmts {
+		paCase(e, q, "directed", q, "none")
+	}
+	for b := 0; b < nBase; b++ {
+		long := b%3 == 2
+		faulty := -1
+		if b%6 == 5 {
+			faulty = (b / 6) % len(c17Faulty)
+		}
+		lex := g.statement(long, faulty)
+		if b%4 == 2 {
+			lex = c17Backquote(r, lex)
+		}
+		mode := b % 3
+		base := c17Render(lex, mode)
+		lead := []string{"", " ", "   "}[b%3]
+		class := "valid"
+		if faulty >= 0 {
+			class = "run_time_faulty"
+		}
+		paCase(e, lead+base, class, base, "none")
+		// single-edit corruptions: four of the 21 (kind x place)
+		for k := 0; k < 4; k++ {
+			text, edit := paCorrupt(r, lex, base, mode, r.intn(3), r.intn(7))
+			if strings.TrimSpace(text) == "" {
+				continue
+			}
+			paCase(e, lead+text, "corrupted", base, edit)
+		}
+		// ill-typed variants
+		vars, what := paIllTyped(r, lex, 7)
+		for i, nl := range vars {
+			paCase(e, lead+c17Render(nl, mode), "ill_typed", base, what[i])
+		}
+	}
 }
